@@ -30,6 +30,8 @@ def main():
     bitops.install()
     opaquefmt.install()
     stubs.install_socket_realize()
+    stubs.install_struct_fix()
+    stubs.install_getattr_fix()
     stubs.install_bytesio()
     hx.SYMBOLIC = True
 
